@@ -52,6 +52,14 @@ checks = {
    technique="deterministic simulation on the fake clock with crash-point enumeration: segments placed around the retention horizon, the real time-based pass, a crash after every mutating fs call of the pass, restart and repeated pass, store digest compared with the uninterrupted run",
    text="Victims must be exactly the rotated segments whose newest event is older than the horizon (decided at pass time on the simulated clock); survivors stay fully searchable, deleted data is gone, counts agree; for every crash point inside the pass the restarted node repeats the pass and must reach the same store digest (segment directories, segmeta.json, metrics meta, table names) as the uninterrupted run. Exhaustive over the pass's fs calls per explored history in the thorough tier.",
    note=TRUST + " Only the time-based pass is driven (volume- and inode-based passes are not). Segments are kept at least two minutes away from the horizon."),
+ "C17": dict(level="exploration", ref="DESIGN.md §4 C17",
+   technique="deterministic simulation: seeded schedule search over the query lifecycle (concurrent sync queries incl. malformed texts, canceller, stall faults that let the short query time-out fire on the fake clock, admission limit 1-5), checked for admission limits, bounded answer time after faults stop, cancel promptness, empty tables and exact goroutine-leak detection after quiescence",
+   text="Query clients, a canceller, a stall-fault injector and a monitor run as tasks of the seeded scheduler against the real admission queue, time-out goroutines and query pipeline; because the simulator owns task creation, 'no goroutine of the query remains' is decided exactly by comparing the live task set with the pre-workload baseline; deadlocks, hangs, spins and panics of the node are violations.",
+   note=TRUST + " Decides the lifecycle/schedule half of C17. 'For all byte strings' parser totality is a pure input property: only a pool of malformed texts is sampled. The websocket transport is a stub (sync path driven)."),
+ "C18": dict(level="fault_enumeration", ref="DESIGN.md §4 C18",
+   technique="deterministic simulation with damage enumeration: every truncation length and every byte x {bit flip, 0x00, 0xFF} of every file of a small deterministic node (log and metrics segments) applied between incarnations; a fresh process boots and runs a query suite compared row by row with the undamaged answers",
+   text="Damage faults are applied by the driver to the stored files between two incarnations; the real start-up and query code runs on the damaged tree. Per query: every returned row must equal the undamaged row (altered values from a checksummed column block are never accepted), rows may be missing only with a reported error and only from queries touching the damaged file, no crash, no hang. Thorough enumerates the space until the time budget; exhaustive is claimed only when everything was run.",
+   note=TRUST + " One damage at a time; the query suite is fixed (9 queries). Many robustness defects of unchecksummed metadata files are recorded as known findings; altered values from .csg blocks are not among them and fail the check."),
  "C01": dict(level="exploration", ref="DESIGN.md §4 C01",
    technique="deterministic simulation: seeded ingest/flush/rotate/restart histories on the real node under the seeded scheduler, checked against an event-set reference model",
    text="Seeded search over ingest histories (batching, flush, forced rotation, idle-timer flush, graceful restart, swarm knobs) executed by the real writer/reader/query code inside a deterministic simulator; after every flush-completing step the match-all result must equal the model's event multiset field by field. Exploration is the right level: the space of histories x JSON shapes is unbounded.",
